@@ -3276,6 +3276,15 @@ fn out_of_order_note(cx: &mut Cx, lp: &[u64]) {
 // ---------------------------------------------------------------------------------------------
 #[derive(Clone, Copy, PartialEq, Debug)]
 enum SiCase {
+	/// nesting bookkeeping: own iterator, completed lookups under it, ANOTHER thread's batch() finds
+	/// the threshold crossed, more lookups while that resize is pending, iterator dropped
+	NestOther,
+	/// single thread: own iterator -> one lookup -> own batch() at the threshold (child batch and
+	/// lookups inside) -> commit -> more lookups -> iterator dropped
+	NestSelf,
+	/// as NestSelf, and after the commit the other thread's batch() arrives while the iterator is
+	/// still held (guard busy; it waits), more lookups, iterator dropped
+	NestSelfOther,
 	Other,
 	SameAfter,
 	SameBefore,
@@ -3591,6 +3600,230 @@ fn si_case(cx: &mut Cx, dir: &str, peer: &Store, si: &mut SiState, case: SiCase,
 	));
 }
 
+
+/// one lookup through the plain store on the writer thread (`exists` / `get_ser` / a complete nested
+/// iteration), checked against the committed state; pushes its enter/leave pair to the schedule
+fn si_lookup(cx: &mut Cx, store: &Store, si: &SiState, seq: &mut Vec<String>, kind: u64, key: &[u8], what: &str) {
+	si_tick(si, what);
+	let db = Some(b'A');
+	let k: K = (db_id(db), key.to_vec());
+	match kind % 3 {
+		0 => {
+			let ans = fmt_bool(&store.exists(db, key));
+			let want = cx.sh.committed.contains_key(&k).to_string();
+			if ans != want {
+				cx.oracle_fail(format!("selfiter {}: exists {} answered {} (committed state: {})", what, hex(key), ans, want));
+			}
+			cx.st.op("read-outside exists");
+			cx.line(&format!("kv read-outside main exists 65 {}", hex(key)), &ans);
+		}
+		1 => {
+			let ans = fmt_get(&store.get_ser::<Vec<u8>>(db, key, None));
+			let want = match cx.sh.committed.get(&k) {
+				Some(v) => format!("some:{}", showval(v)),
+				None => "none".into(),
+			};
+			if ans != want {
+				cx.oracle_fail(format!("selfiter {}: get_ser {} answered {} (committed state: {})", what, hex(key), ans, want));
+			}
+			cx.st.op("read-outside get");
+			cx.line(&format!("kv read-outside main get 65 {}", hex(key)), &ans);
+		}
+		_ => {
+			let ans = fmt_iter(&collect_iter(store.iter(Some(b'Z'), kvpair)));
+			let want = fmt_items(&Shadow::items(&cx.sh.committed, Some(b'Z')));
+			if ans != want {
+				cx.oracle_fail(format!("selfiter {}: nested iterator over db Z yielded {} items, committed state has other contents", what, ans.matches('=').count()));
+			}
+			cx.st.op("read-outside iter");
+			cx.line("kv read-outside main iter 90", &ans);
+		}
+	}
+	seq.push("e0".into());
+	seq.push("l0".into());
+	si_tick(si, what);
+}
+
+/// the other thread's batch (one put, commit), issued with `send_only` before; collects its answer
+fn si_collect_t1(cx: &mut Cx, dir: &str, si: &mut SiState, key: Vec<u8>, v: Vec<u8>, pre: Option<(u64, u64, u64)>, min_ms: u64, what: &str) {
+	si_tick(si, what);
+	let reply = cx.reader.recv_only();
+	si_tick(si, what);
+	let parts: Vec<&str> = reply.split('|').collect();
+	if parts.len() != 4 || parts[0] != "ok" || parts[1] != "ok" || parts[2] != "ok" {
+		si.failed += 1;
+		cx.oracle_fail(format!("selfiter {}: the other thread's batch (issued while a resize was pending behind this thread's iterator) answered {}", what, reply));
+		cx.line("kv begin", "err");
+		return;
+	}
+	let ms: u64 = parts[3].parse().unwrap_or(0);
+	if ms < min_ms {
+		cx.oracle_fail(format!(
+			"selfiter {}: the other thread's Store::batch() returned after {} ms although a resize was due and this thread held a transaction for at least {} ms more",
+			what, ms, min_ms
+		));
+	}
+	si.batches += 1;
+	cx.sh.stack.push(vec![]);
+	cx.st.op("begin");
+	cx.line("kv begin", "ok");
+	cx.sh.write((db_id(Some(b'B')), key.clone()), Some(v.clone()));
+	cx.st.op("put");
+	cx.line(&format!("kv put 66 {} {}", hex(&key), valtok(&v)), "ok");
+	cx.sh.commit();
+	cx.st.commits[1] += 1;
+	cx.line("kv commit", "ok");
+	if let (Some(pre), Some(post)) = (pre, meta_info(dir)) {
+		if post.0 > si.cur_map {
+			si.grown += 1;
+		} else {
+			cx.oracle_fail(format!("selfiter {}: the long-lived transaction has ended but the other thread's batch ran on the old map ({}): the postponed resize did not happen", what, post.0));
+		}
+		cx.st.op("rz-batch");
+		cx.line(&format!("kv rz-batch same=0 other=1 settled=1 used={}", pre.1 * 4096), &post.0.to_string());
+		si.cur_map = post.0;
+	}
+	cx.out.raw(&format!("#STAT selfiter {}: the other thread's Store::batch() waited {} ms", what, ms));
+}
+
+fn si_nest_case(cx: &mut Cx, dir: &str, si: &mut SiState, case: SiCase, n: u64) {
+	let what = format!("case {:?}", case);
+	si_tick(si, &what);
+	let store = cx.store();
+	let mut seq: Vec<String> = vec![];
+	let keys: Vec<Vec<u8>> = (0..4).map(|i| format!("v{:05}", (n / 4) * i).into_bytes()).collect();
+	let snap_db = Some(b'A');
+	let snap: Vec<(Vec<u8>, Vec<u8>)> = Shadow::items(&cx.sh.committed, snap_db);
+	let snap_rest: Vec<(Vec<u8>, Vec<u8>)> = snap.iter().skip(1).cloned().collect();
+	// the long-lived transaction of this thread
+	let it_main = si_open_iter(cx, &store, snap_db, true);
+	seq.push("e0".into());
+	// completed operations under it
+	si_lookup(cx, &store, si, &mut seq, 0, &keys[1], &what);
+	if case == SiCase::NestOther {
+		si_lookup(cx, &store, si, &mut seq, 1, &keys[2], &what);
+		si_lookup(cx, &store, si, &mut seq, 2, &[], &what);
+	}
+	let t1_key = format!("w{:05}", n).into_bytes();
+	let t1_val = vec![0x5au8; 24_000];
+	match case {
+		SiCase::NestOther => {
+			// the other thread's batch() finds the map above the threshold: deferred, it waits
+			let pre = meta_info(dir);
+			cx.reader.send_only(Req::WriteBatch(vec![], vec![(Some(b'B'), t1_key.clone(), t1_val.clone())], true));
+			seq.push("q".into());
+			thread::sleep(Duration::from_millis(60));
+			// further operations exactly while that resize is pending
+			for i in 0..6u64 {
+				si_lookup(cx, &store, si, &mut seq, i, &keys[(i % 4) as usize], &what);
+			}
+			si_close_iter(cx, it_main, true, &snap_rest);
+			seq.push("l0".into());
+			seq.push("w".into());
+			seq.push("e1".into());
+			seq.push("l1".into());
+			si_collect_t1(cx, dir, si, t1_key, t1_val, pre, 50, &what);
+		}
+		_ => {
+			// own batch() at the threshold: deferred behind the own iterator, proceeds nested
+			si.batches += 1;
+			let pre = meta_info(dir);
+			let mut b = match store.batch() {
+				Ok(b) => b,
+				Err(e) => {
+					si.failed += 1;
+					cx.oracle_fail(format!("selfiter {}: Store::batch failed: {:?}", what, e));
+					return;
+				}
+			};
+			seq.push("q".into());
+			seq.push("e0".into());
+			si_tick(si, &what);
+			cx.sh.stack.push(vec![]);
+			cx.st.op("begin");
+			cx.line("kv begin", "ok");
+			let mut ok = true;
+			let key = format!("c{:05}", n).into_bytes();
+			let v = vec![0xa5u8; 20_000];
+			let ans = fmt_unit(b.put(Some(b'A'), &key, &v));
+			if ans != "ok" {
+				ok = false;
+				cx.oracle_fail(format!("selfiter {}: put failed inside the nested batch", what));
+			} else {
+				cx.sh.write((db_id(Some(b'A')), key.clone()), Some(v.clone()));
+			}
+			cx.line(&format!("kv put 65 {} {}", hex(&key), valtok(&v)), &ans);
+			// a completed child batch and completed lookups while holding iterator + batch
+			match b.child() {
+				Ok(mut c) => {
+					cx.sh.stack.push(vec![]);
+					cx.line("kv child", "ok");
+					let k2 = format!("d{:05}", n).into_bytes();
+					let v2 = vec![0x3cu8; 9_000];
+					let ans = fmt_unit(c.put(Some(b'Z'), &k2, &v2));
+					if ans == "ok" {
+						cx.sh.write((db_id(Some(b'Z')), k2.clone()), Some(v2.clone()));
+					} else {
+						ok = false;
+						cx.oracle_fail(format!("selfiter {}: child put failed", what));
+					}
+					cx.line(&format!("kv put 90 {} {}", hex(&k2), valtok(&v2)), &ans);
+					let ans = fmt_unit(c.commit());
+					cx.sh.commit();
+					cx.st.commits[2] += 1;
+					cx.line("kv commit", &ans);
+				}
+				Err(e) => {
+					ok = false;
+					cx.oracle_fail(format!("selfiter {}: Batch::child failed: {:?}", what, e));
+				}
+			}
+			si_lookup(cx, &store, si, &mut seq, 0, &key, &what);
+			si_lookup(cx, &store, si, &mut seq, 1, &keys[2], &what);
+			let ans = fmt_unit(b.commit());
+			if ans != "ok" {
+				ok = false;
+				cx.oracle_fail(format!("selfiter {}: commit of the nested batch failed", what));
+				cx.sh.stack.pop();
+			} else {
+				cx.sh.commit();
+			}
+			seq.push("l0".into());
+			cx.st.commits[1] += 1;
+			cx.line("kv commit", &ans);
+			if !ok {
+				si.failed += 1;
+			}
+			if let (Some(pre), Some(post)) = (pre, meta_info(dir)) {
+				cx.st.op("rz-batch");
+				cx.line(&format!("kv rz-batch same=1 other=0 settled=1 used={}", pre.1 * 4096), &post.0.to_string());
+				si.cur_map = post.0;
+			}
+			// the resize is still pending behind the iterator: more lookups
+			let pre_t1 = meta_info(dir);
+			if case == SiCase::NestSelfOther {
+				cx.reader.send_only(Req::WriteBatch(vec![], vec![(Some(b'B'), t1_key.clone(), t1_val.clone())], true));
+				thread::sleep(Duration::from_millis(60));
+			}
+			for i in 0..5u64 {
+				si_lookup(cx, &store, si, &mut seq, i, &keys[(i % 4) as usize], &what);
+			}
+			si_close_iter(cx, it_main, true, &snap_rest);
+			seq.push("l0".into());
+			seq.push("w".into());
+			if case == SiCase::NestSelfOther {
+				seq.push("e1".into());
+				seq.push("l1".into());
+				si_collect_t1(cx, dir, si, t1_key, t1_val, pre_t1, 50, &what);
+			}
+		}
+	}
+	si_tick(si, &what);
+	cx.st.op("txseq");
+	cx.line(&format!("kv txseq 2 {}", seq.join(",")), "completed:resizes=1");
+	cx.out.raw(&format!("#STAT selfiter {:?}: schedule of {} enter/leave/request/resize steps, all operations returned", case, seq.len()));
+}
+
 fn mode_selfiter(work: &str, seed: u64, thorough: bool) {
 	let progress = Arc::new(std::sync::atomic::AtomicU64::new(0));
 	let phase = Arc::new(std::sync::Mutex::new(String::new()));
@@ -3616,6 +3849,9 @@ fn mode_selfiter(work: &str, seed: u64, thorough: bool) {
 		});
 	}
 	let cases = [
+		SiCase::NestOther,
+		SiCase::NestSelf,
+		SiCase::NestSelfOther,
 		SiCase::SameAfter,
 		SiCase::Other,
 		SiCase::SameBefore,
@@ -3663,7 +3899,11 @@ fn mode_selfiter(work: &str, seed: u64, thorough: bool) {
 				n += 1;
 			}
 			let grown_before = si.grown;
-			si_case(&mut cx, &dir, &peer, &mut si, *case, n);
+			if matches!(case, SiCase::NestOther | SiCase::NestSelf | SiCase::NestSelfOther) {
+				si_nest_case(&mut cx, &dir, &mut si, *case, n);
+			} else {
+				si_case(&mut cx, &dir, &peer, &mut si, *case, n);
+			}
 			n += 1;
 			if sizes.last() != Some(&si.cur_map) {
 				sizes.push(si.cur_map);
